@@ -66,7 +66,7 @@ def sbml_text(params, rules, inits=()):
             '<listOfRules>%s</listOfRules></model></sbml>' % (ps_, ia, rs))
 
 
-STATE_IDS = ['zeta', 'beta', 'mu']        # alphabetical != listed order
+STATE_IDS = ['zeta', 'beta', 'mu', 'delta']   # alphabetical != listed order
 CONST_IDS = ['rate', 'alpha', 'kappa']
 INTER_IDS = ['mid', 'aux']
 
@@ -452,7 +452,7 @@ def jobs(tier):
                  'erlotinib_tumour_growth_inhibition_model'):
         out.append(('library', 'case_library', dict(model=name), FACADE))
     k = 0
-    for ns in (1, 2, 3):
+    for ns in ((1, 2, 3) if q else (1, 2, 3, 4)):
         for states in itertools.permutations(STATE_IDS[:ns]):
             for n_const in ([0, 2] if q else [0, 1, 2, 3]):
                 for n_inter in ([0, 1] if q else [0, 1, 2]):
@@ -485,7 +485,7 @@ BOUNDS = dict(
           'variables, with/without a derived constant; a third of the output '
           'selections (size <= 2, states and intermediates), renamings, '
           'reduced models; 3 time points',
-    thorough='0..3 constants, 0..2 intermediates, 6 output selections each',
+    thorough='1..4 states in every declaration order, 0..3 constants, 0..2 intermediates, 6 output selections each',
     outside='the integrator itself (myokit/sundials, absent in this sandbox) '
             'is an uninterpreted functional: what is decided is that chi '
             'hands the solver the right values under the right names and '
